@@ -28,8 +28,6 @@ DOC_STRUCTURAL = {"Barline", "Page", "System", "Clef", "Measure", "TimeSignature
 
 
 def run(ctx):
-    from ..rules import generic as _G11
-    _G11.rule_F11(ctx, ['partitura.score'], 'C15')
     prog = ctx.prog
     w = world(ctx)
     f = prog.func(f"{S}:merge_parts", "C15")
